@@ -267,11 +267,14 @@ func UpdatePathAttrs(logger *slog.Logger, global *oc.Global, info *PeerInfo, ori
 		path.RemovePrivateAS(info.LocalAS, info.RemovePrivateAs)
 
 		// AS_PATH handling
+		// RFC 5065 4.1 (c): towards a peer outside the confederation the
+		// confederation segments are removed first, so that the local AS
+		// is prepended to the leading AS_SEQUENCE of what remains.
 		confed := global.IsConfederationMember(info.AS)
-		path.PrependAsn(info.LocalAS, 1, confed)
 		if !confed {
 			path.removeConfedAs()
 		}
+		path.PrependAsn(info.LocalAS, 1, confed)
 
 		// MED Handling
 		if med := path.getPathAttr(bgp.BGP_ATTR_TYPE_MULTI_EXIT_DISC); med != nil && !path.IsLocal() {
